@@ -14,7 +14,12 @@ class RemoveAsserts(SuiteTransformer):
         return self.visit(node)
 
     def suite(self, node_list, parent):
-        without_assert = [self.visit(a) for a in filter(lambda n: not isinstance(n, ast.Assert), node_list)]
+        remaining = list(filter(lambda n: not isinstance(n, ast.Assert), node_list))
+        without_assert = [self.visit(a) for a in remaining]
+
+        if self.becomes_docstring(node_list, remaining, parent):
+            # Keep the string statement out of the docstring position
+            without_assert.insert(0, self.add_child(ast.Expr(value=ast.Num(0)), parent=parent))
 
         if len(without_assert) == 0:
             if isinstance(parent, ast.Module):
